@@ -283,6 +283,31 @@ def check_profile(ctx, case, all_orders):
                 nb = Ballot(ranking=b.ranking, scores={cs[0]: 1}, weight=b.weight)
                 variants.append(("scores added", ballots[:i] + [nb] + ballots[i + 1:], content_ms(ballots[:i] + [nb] + ballots[i + 1:]) == M))
             variants.append(("ballot removed", ballots[:i] + ballots[i + 1:], content_ms(ballots[:i] + ballots[i + 1:]) == M))
+            # same total weight per ranking and per score assignment, but the scores sit on other rankings: two ballots with
+            # different rankings and different scores get equal weight in BOTH profiles; in the second one their scores are
+            # swapped (only the joint contents tell the two profiles apart)
+            pairs = [(a, c) for a in range(len(ballots)) for c in range(a + 1, len(ballots))
+                     if ballots[a].ranking and ballots[c].ranking and ballots[a].ranking != ballots[c].ranking
+                     and (ballots[a].scores or {}) != (ballots[c].scores or {})]
+            if pairs:
+                a, c = rnd.choice(pairs)
+                w = ballots[a].weight
+                ba, bc = ballots[a], ballots[c]
+                rest = [x for j, x in enumerate(ballots) if j not in (a, c)]
+                base2 = rest + [Ballot(ranking=ba.ranking, scores=ba.scores, weight=w), Ballot(ranking=bc.ranking, scores=bc.scores, weight=w)]
+                swap2 = rest + [Ballot(ranking=ba.ranking, scores=bc.scores, weight=w), Ballot(ranking=bc.ranking, scores=ba.scores, weight=w)]
+                ctx.count("eq_same_marginals_other_joint_pairs")
+                p2a = PreferenceProfile(ballots=tuple(base2), candidates=tuple(cs))
+                p2b = PreferenceProfile(ballots=tuple(swap2), candidates=tuple(cs))
+                want = content_ms(base2) == content_ms(swap2)
+                for u, v_, lab in ((p2a, p2b, "p==q"), (p2b, p2a, "q==p")):
+                    oe = observe(lambda: u == v_)
+                    ctx.count("eq_pairs")
+                    if not oe.ok or bool(oe.value) != want:
+                        ctx.fail(f"profile equality is not content equality (scores swapped between two rankings of equal weight, {lab})",
+                                 case, {"got": repr(oe)[:100], "expected": want, "a": canon.multiset_c(content_ms(base2), False),
+                                        "b": canon.multiset_c(content_ms(swap2), False)})
+                        return
         for name, bl2, exp_eq in variants:
             q = PreferenceProfile(ballots=tuple(bl2), candidates=tuple(cs))
             exp_eq = content_ms(bl2) == M
